@@ -211,7 +211,13 @@ def _gen_case(rp, rf, rk, tier, flavour):
                     if segs and segs[-1][0] == "d" and segs[-1][1] not in (" ", "\t"):
                         segs[-1] = ["d", " "]
                     segs.append(["pw", key + sep, secret])
-                    # one password key per line unless whitespace separated, and nothing glued to the secret
+                    # further password keys on the line are whitespace separated, and nothing is glued to a secret
+                    # (one-line records, several --password= options)
+                    more = rp.choice([0, 0, 0, 1, 2, 3])
+                    for _m in range(more):
+                        segs.append(["d", " "])
+                        segs.append(["pw", "password" + rp.choice(["", "_x", "2", "Hash"]) + rp.choice(["=", ": ", " = ", ":", "=="]),
+                                     "S3" + name(rp) + rp.choice(["!", "", "#1"])])
                     segs.append(["d", " "])
                     segs.append(["f", rp.choice(FILL)])
                     break
